@@ -567,7 +567,7 @@ static void do_mk(void)
     }
     else if (!strcmp(what, "ziter")) rc = cg_ziter_write(fn, cB, Z, "ZoneIterativeData");
     else if (!strcmp(what, "piter")) rc = cg_piter_write(fn, cB, PZ, "ParticleIterativeData");
-    else if (!strcmp(what, "state")) rc = cg_state_write("refstate");
+    else if (!strcmp(what, "state")) rc = cg_state_write("");        /* no ReferenceStateDescription child */
     else if (!strcmp(what, "converg")) rc = cg_convergence_write(5, "");
     else if (!strcmp(what, "eqset")) rc = cg_equationset_write(3);
     else if (!strcmp(what, "governing")) rc = cg_governing_write(CGNS_ENUMV(NSTurbulent));
